@@ -286,6 +286,169 @@ pub fn walk_sweep(a: &Args, idx: u64, max_points: u32, acc: &mut Acc) {
     }
 }
 
+/// Write handles kept open while the path changes underneath them (C03b/C10b/C13 style rug-pulls, plus a second
+/// writer on the same path): whatever the sync handle makes visible at flush and close — also with an empty
+/// buffer — the async handle must make visible too.
+pub fn held_handle_case(a: &Args, idx: u64, acc: &mut Acc) {
+    use crate::ops::WStep;
+    let mut rng = Rng::derive(a.seed, "c15-held", idx);
+    let cfg = match rng.below(7) {
+        0 | 1 | 2 => Cfg::Mem,
+        3 => Cfg::Alt(Box::new(Cfg::Mem), "/__alt/p".into()),
+        4 | 5 => Cfg::Ovl(vec![(Cfg::Mem, "".into()), (Cfg::Mem, "/__lay1".into())]),
+        _ => Cfg::Alt(Box::new(Cfg::Ovl(vec![(Cfg::Mem, "".into()), (Cfg::Mem, "".into())])), "/__alt".into()),
+    };
+    let sched: Vec<u8> = match rng.below(3) {
+        0 => vec![0],
+        1 => vec![1],
+        _ => (0..rng.range(3, 9)).map(|_| rng.below(3) as u8).collect(),
+    };
+    let sb = build(&cfg);
+    let ab = match guard(|| block_on(abuild(&cfg, vec![0]))) {
+        Ok(b) => b,
+        Err(_) => return,
+    };
+    let mut tree: BTreeMap<String, Node> = BTreeMap::new();
+    tree.insert("/d".into(), Node::Dir);
+    if rng.chance(1, 2) {
+        tree.insert("/d/f".into(), Node::File(b"old bytes".to_vec()));
+    }
+    tree.insert("/g".into(), Node::File(b"g".to_vec()));
+    // on overlays the pre-state sits in the lowest layer half of the time
+    let in_lower = rng.chance(1, 2);
+    let placed = match (in_lower, outer_overlay(&sb)) {
+        (true, Some((ovl, prefix))) if !ab.layer_views.is_empty() => {
+            let views = sb.layer_views(ovl);
+            crate::prepop::write_tree(&views[views.len() - 1].1, &prefix, &tree).is_ok() && guard(|| block_on(awrite_tree(&ab.layer_views[ab.layer_views.len() - 1], &prefix, &tree))).map(|r| r.is_ok()).unwrap_or(false)
+        }
+        _ => crate::prepop::write_tree(&sb.root, "", &tree).is_ok() && guard(|| block_on(awrite_tree(&ab.root, "", &tree))).map(|r| r.is_ok()).unwrap_or(false),
+    };
+    if !placed {
+        acc.count("setup_failed", 1);
+        return;
+    }
+    ab.ctl.set_schedule(sched.clone());
+    let probe: Vec<String> = ["/d", "/d/f", "/d/f/x", "/g", "/d/moved"].iter().map(|s| s.to_string()).collect();
+    let t = "/d/f".to_string();
+    let exists = tree.contains_key(&t);
+    let append = exists && rng.chance(1, 2);
+    acc.evaluations += 1;
+    let mut trace: Vec<String> = vec![];
+    let mk = |trace: &Vec<String>| J::obj().set("tag", J::s("c15-held")).set("seed", J::i(a.seed)).set("history", J::i(idx)).set("config", J::s(cfg.desc())).set("pre_state_in_lower_layer", J::Bool(in_lower)).set("poll_schedule", J::s(format!("{:?}", sched))).set("trace", J::arr(trace.iter().map(J::s)));
+    // ---- open the two handles
+    let sp = crate::ops::at(&sb.root, &t);
+    let ap = crate::asyncside::aat(&ab.root, &t);
+    let hs = guard(|| if append { sp.append_file() } else { sp.create_file() });
+    let ha = guard(|| block_on(async { if append { ap.append_file().await } else { ap.create_file().await } }));
+    let (mut hs, mut ha) = match (hs, ha) {
+        (Ok(Ok(x)), Ok(Ok(y))) => (Some(x), Some(y)),
+        (Ok(Err(_)), Ok(Err(_))) => return,
+        (x, y) => {
+            acc.violate(Violation { property: "C15", signature: format!("held|open-outcome|{}|{}", if append { "append" } else { "create" }, cfg.family()), summary: format!("opening a write handle on {}: sync ok={} async ok={}", t, matches!(x, Ok(Ok(_))), matches!(y, Ok(Ok(_)))), detail: mk(&trace), order: idx * 100 });
+            return;
+        }
+    };
+    trace.push(format!("{}({}) -> handle kept open in both worlds", if append { "append_file" } else { "create_file" }, t));
+    #[derive(Debug)]
+    enum H {
+        Write(Vec<u8>),
+        Flush,
+        Rug(Op),
+        Close(bool),
+    }
+    let mut script: Vec<H> = vec![];
+    let writes = |rng: &mut Rng, script: &mut Vec<H>| {
+        for _ in 0..rng.below(3) {
+            let len = *rng.pick(&[0usize, 0, 1, 5]);
+            script.push(H::Write(rng.bytes(len, true)));
+            if rng.chance(1, 3) {
+                script.push(H::Flush);
+            }
+        }
+    };
+    writes(&mut rng, &mut script);
+    for _ in 0..rng.range(0, 2) {
+        let op = match rng.below(8) {
+            0 | 1 => Op::RemoveFile(t.clone()),
+            2 => Op::CreateFile(t.clone(), vec![WStep::Write(b"data".to_vec())]),
+            3 => Op::AppendFile(t.clone(), vec![WStep::Write(b"zz".to_vec())]),
+            4 => Op::RemoveDirAll("/d".into()),
+            5 => Op::CreateDir(t.clone()),
+            6 => Op::MoveFile(t.clone(), "/d/moved".into()),
+            _ => Op::CreateFile(t.clone(), vec![]),
+        };
+        script.push(H::Rug(op));
+    }
+    writes(&mut rng, &mut script);
+    script.push(H::Close(rng.chance(1, 2)));
+    let mut prev: BTreeSet<(String, &'static str)> = BTreeSet::new();
+    for (i, st) in script.iter().enumerate() {
+        let order = idx * 100 + i as u64 + 1;
+        // outcome classes of the step in both worlds
+        let (rs, ra): (Result<(), String>, Result<(), String>) = match st {
+            H::Write(b) => {
+                let x = guard(|| std::io::Write::write_all(hs.as_mut().unwrap(), b)).map_err(|p| format!("PANIC {}", p.message)).and_then(|r| r.map_err(|e| e.kind().to_string()));
+                let y = guard(|| block_on(async { async_std::io::WriteExt::write_all(ha.as_mut().unwrap(), b).await })).map_err(|p| format!("PANIC {}", p.message)).and_then(|r| r.map_err(|e| e.kind().to_string()));
+                (x, y)
+            }
+            H::Flush => {
+                let x = guard(|| std::io::Write::flush(hs.as_mut().unwrap())).map_err(|p| format!("PANIC {}", p.message)).and_then(|r| r.map_err(|e| e.kind().to_string()));
+                let y = guard(|| block_on(async { async_std::io::WriteExt::flush(ha.as_mut().unwrap()).await })).map_err(|p| format!("PANIC {}", p.message)).and_then(|r| r.map_err(|e| e.kind().to_string()));
+                (x, y)
+            }
+            H::Rug(op) => (exec(&sb.root, op).map(|_| ()).map_err(|e| e.kind.name().to_string()), aexec(&ab.root, op).map(|_| ()).map_err(|e| if e.panic.is_some() { format!("PANIC {}", e.display) } else { e.kind.name().to_string() })),
+            H::Close(explicit) => {
+                let x = guard(|| drop(hs.take())).map_err(|p| format!("PANIC {}", p.message));
+                let mut h = ha.take();
+                let y = guard(|| {
+                    block_on(async {
+                        if *explicit {
+                            // an explicit close may fail where drop stays silent; only the resulting state is compared
+                            let _ = futures::AsyncWriteExt::close(h.as_mut().unwrap()).await;
+                        }
+                        drop(h);
+                    })
+                })
+                .map_err(|p| format!("PANIC {}", p.message));
+                (x, y)
+            }
+        };
+        trace.push(format!("{:?} => sync {:?} async {:?}", st, rs, ra));
+        acc.steps += 1;
+        for r in [&rs, &ra] {
+            if let Err(m) = r {
+                if m.starts_with("PANIC") {
+                    acc.violate(Violation { property: "C13", signature: format!("panic|held-handle-step|{}|{}", cfg.family(), m.chars().filter(|c| !c.is_ascii_digit()).take(50).collect::<String>()), summary: m.clone(), detail: mk(&trace), order });
+                    return;
+                }
+            }
+        }
+        let step_name = match st { H::Write(b) if b.is_empty() => "write-empty", H::Write(_) => "write", H::Flush => "flush", H::Rug(op) => op.name(), H::Close(true) => "close+drop", H::Close(false) => "drop" };
+        // flush/write errors of a handle whose file is gone are compared as ok/err only; rug steps as ok/err
+        if rs.is_ok() != ra.is_ok() && !matches!(st, H::Close(_)) {
+            acc.violate(Violation { property: "C15", signature: format!("held|outcome|{}|sync:{}|async:{}|{}", step_name, if rs.is_ok() { "Ok" } else { "Err" }, if ra.is_ok() { "Ok" } else { "Err" }, cfg.family()), summary: format!("with a write handle on {} kept open, step {:?}: sync => {:?} but async => {:?}", t, st, rs, ra), detail: mk(&trace), order });
+            return;
+        }
+        // observable state: never while unflushed bytes could legitimately differ? Both worlds buffer identically
+        // (nothing is visible before flush/close), so the snapshots must agree after every step
+        let ns = snapshot(&sb.root, &probe, 4096);
+        let na = asnapshot(&ab.root, &probe);
+        acc.fingerprints.insert(ns.fingerprint() ^ 0x15d);
+        let d = diff_snaps(&ns, &na);
+        let fresh: Vec<&crate::snapshot::Diff> = d.iter().filter(|x| !prev.contains(&(x.path.clone(), x.observer))).collect();
+        if let Some(f) = fresh.first() {
+            acc.violate(Violation { property: "C15", signature: format!("held|state|after:{}|{}@{}|{}", step_name, f.observer, if f.path == t { "handle-path" } else { "other" }, cfg.family()), summary: format!("with a write handle on {} kept open, after {:?} the sync and async worlds differ at {:?}: {} sync={} async={}", t, st, f.path, f.observer, f.expected, f.got), detail: mk(&trace), order });
+            return;
+        }
+        prev = d.into_iter().map(|x| (x.path, x.observer)).collect();
+        acc.cell(format!("held|{}|{}", step_name, cfg.family()));
+    }
+    acc.count("held_handle_cases", 1);
+    if idx < 2 {
+        acc.sample(2000 + idx, J::obj().set("held_handle_case", J::i(idx)).set("config", J::s(cfg.desc())).set("trace", J::arr(trace.iter().map(J::s))));
+    }
+}
+
 pub fn run(a: &Args) -> Acc {
     let k = if a.tier == "thorough" { 8 } else { 4 };
     let mut acc = par_run(a, "c15", a.n(1500, 30000), |a, idx, acc| run_case(a, "c15", idx, k, acc));
@@ -293,6 +456,7 @@ pub fn run(a: &Args) -> Acc {
     acc.merge(par_run(a, "c15-walk-sweep", a.n(24, 96), |a, idx, acc| walk_sweep(a, idx, maxp, acc)));
     acc.merge(par_run(a, "c15-walk-mutation", a.n(3000, 60000), walk_mutation_case));
     acc.merge(par_run(a, "c15-transfer", a.n(1200, 20000), transfer_case));
+    acc.merge(par_run(a, "c15-held", a.n(4000, 60000), held_handle_case));
     acc
 }
 
